@@ -76,6 +76,10 @@ def run(R, ctx):
     clustersuite.one_node_probe(R, "q-halfclose-cluster-1", R.seed * 1000 + 5,
                                 "a real cluster node writes exactly one reply per command, in order, also for a pipeline whose writer closed its sending side at once (replies wait for commits there)",
                                 "a command read from a connection of a cluster node got no reply, or replies out of order")
+    if getattr(R, "alias_broken", None):
+        # fact F7 (stored byte slices are never rewritten in place) is broken: a reply encoded after the lock is gone may show other bytes - aim the alias probes
+        from .. import families
+        families.alias_aim(R, ctx)
     if broken and not any(found for _p, _s, found in R.violations):
         # fact F6 is broken and neither the suite nor the sessions aimed at the offending executors produced a framing break: name the call
         if all(t.startswith("ReplySites.") for t, _ in getattr(ctx, "broken", [])):
@@ -89,6 +93,12 @@ def run(R, ctx):
 
 
 def replay(R, payload):
+    if payload.get("engine") == "alias":
+        from .. import families
+        return families.alias_replay(R, payload)
+    if payload.get("engine") == "conc":
+        from .. import concsuite
+        return concsuite.replay_conc(R, payload)
     if payload.get("engine") == "cluster":
         from .. import clustersuite
         return clustersuite.replay_cluster(R, payload)
